@@ -202,6 +202,20 @@ impl Property for C15 {
             out.fail("c15:rerun-differs", "iterating the test a second time (same script, same seed) gave different items");
             return out;
         }
+        // a clone of a TestCase that has been iterated is the same test (same text, same signal list): it runs the same
+        match guarded(|| tc.clone()) {
+            Err(p) => {
+                out.fail(p.key(), format!("cloning a TestCase panicked: {p}"));
+                return out;
+            }
+            Ok(cl) => {
+                let cr = run_real(&cl, &built.sigs, &spec, &opts);
+                if cr.ctor != base.ctor || cr.items != base.items {
+                    out.fail("c15:rerun-differs", "iterating a clone of the TestCase (same script, same seed) gave different items");
+                    return out;
+                }
+            }
+        }
         // A second driver that lists its outputs in another order (same answers): a TestCase that has been iterated
         // before must behave like one parsed and bound afresh - behaviour is a function of text, signal list and the
         // driver's responses, nothing learnt from an earlier driver may stick to the TestCase.
